@@ -35,7 +35,7 @@ package imperatives
 //@   property C20,C14
 //@   merge_paths
 //@   requires s != nil && table != nil && table.ref != 0
-//@   let st := s.stream
+//@   let st := s.input
 //@   let p0 := s.pos + 1
 //@   define dv_flush(st, p0) == 1000
 //@   define forall p int :: p >= p0 && tkKind(st, p) == optFlush ==> dv_flush(st, p + 2) == atoiOf(btrim(tkVal(st, p + 1)))
@@ -119,7 +119,7 @@ package imperatives
 //@   ensures[filter; C20] err == nil ==> dest.Matcher.Prefix == dv_prefix(st, s.pos) && dest.Matcher.NotPrefix == dv_notPrefix(st, s.pos) && dest.Matcher.Sub == dv_sub(st, s.pos)
 //@        && dest.Matcher.NotSub == dv_notSub(st, s.pos) && dest.Matcher.Regex == dv_regex(st, s.pos) && dest.Matcher.NotRegex == dv_notRegex(st, s.pos)
 //@   loop 1:
-//@     invariant[scan] s.stream == st && s.pos >= p0 && t != nil && (t.Token == 4294967295 ==> tkKind(st, s.pos) == 4294967295)
+//@     invariant[scan] s.input == st && s.pos >= p0 && t != nil && (t.Token == 4294967295 ==> tkKind(st, s.pos) == 4294967295)
 //@     invariant[flush] flush == dv_flush(st, s.pos)
 //@     invariant[reconn] reconn == dv_reconn(st, s.pos)
 //@     invariant[connBufSize] connBufSize == dv_connBufSize(st, s.pos)
@@ -182,7 +182,7 @@ package imperatives
 //@ func readAddBlack(s *toki.Scanner, table table.Interface) (err error)
 //@   property C20,C14
 //@   requires s != nil && table != nil && table.ref != 0
-//@   let st := s.stream
+//@   let st := s.input
 //@   let p  := s.pos
 //@   let kind := tkVal(st, p)
 //@   let v    := tkVal(st, p + 1)
@@ -197,7 +197,7 @@ package imperatives
 //@ func readAddRewriter(s *toki.Scanner, table table.Interface) (err error)
 //@   property C20,C14
 //@   requires s != nil && table != nil && table.ref != 0
-//@   let st := s.stream
+//@   let st := s.input
 //@   let p  := s.pos
 //@   modifies s.pos, calls(table.AddRewriter)
 //@   ensures[as_written; C20] err == nil ==> (exists rest elem :: calls(table.AddRewriter) == old(calls(table.AddRewriter)) ++
